@@ -7,6 +7,7 @@ CONSTANTS
   Parents <- McParents
   CtxOf <- McCtxOf
   Removable <- McRemovable
+  OtherMds <- McOtherMds
   BeginKinds <- AllKinds
   KeepH = {"m1", "pc", "ch"}
   TrackH = "none"
